@@ -107,6 +107,14 @@ def run(ctx, build):
                 for dd in range(len(sizes)):
                     if sizes[dd] >= 5 and rng.random() < 0.4:
                         sels[dd] = ('list', sorted(rng.sample(range(sizes[dd]), rng.randint(3, 4))), rng.choice([list, tuple, np.array]))
+                # designed selections (independent of the seed): an unevenly spaced list whose span is a multiple of (count - 1),
+                # alone on one long dimension
+                long_dims = [dd for dd in range(len(sizes)) if sizes[dd] >= 5]
+                if si < 2 * len(long_dims):
+                    dd = long_dims[si // 2]
+                    sels = [('absent',)] * len(sizes)
+                    sels[dd] = ('list', [0, 1, 4] if si % 2 == 0 else [0, 3, 4], list)
+                    bad = False
                 if rng.random() < 0.25:
                     # aim at a square 2-D result: pick the same number of rows and columns
                     pass
